@@ -78,6 +78,9 @@ def ensure(verbose=True):
                 for p in (base + SOSUF, base + ".cpp"):
                     if os.path.exists(p):
                         os.remove(p)
+            # never reuse object files: they may stem from a different source tree (WHATSHAP_REPO) or predate
+            # an edit whose mtime is older than the object (rsync preserves mtimes)
+            shutil.rmtree(os.path.join(tree, "build"), ignore_errors=True)
             env = dict(os.environ, SETUPTOOLS_SCM_PRETEND_VERSION="0.0.verif")
             env.pop("PYTHONPATH", None)
             r = subprocess.run([PY, "setup.py", "build_ext", "--inplace", "-j", "16"], cwd=tree, env=env,
@@ -116,10 +119,12 @@ def ensure(verbose=True):
                 os.link(cached[n], os.path.join(ov, rel + SOSUF))
             open(os.path.join(ov, ".complete"), "w").write(tag)
         os.utime(ov)
-        # prune old overlays (keep 3 newest)
-        ovs = sorted(glob.glob(os.path.join(CACHE, "overlay-*")), key=os.path.getmtime, reverse=True)
-        for p in ovs[3:]:
-            shutil.rmtree(p, ignore_errors=True)
+        # prune overlays not used for 3 hours (several checks may run concurrently on different source
+        # trees via WHATSHAP_REPO: never remove an overlay another process may still be running from)
+        now = time.time()
+        for p in glob.glob(os.path.join(CACHE, "overlay-*")):
+            if p != ov and now - os.path.getmtime(p) > 3 * 3600:
+                shutil.rmtree(p, ignore_errors=True)
         return ov
     finally:
         fcntl.flock(lock, fcntl.LOCK_UN)
